@@ -649,7 +649,7 @@ Definition apply_update (spec update : value) (was_insert : bool) (now : Z) (doc
   : res value :=
   match update with
   | VDoc [] =>
-      (* `if not document:` empty update: keep only the _id (when truthy) *)
+      (* `if not document:` empty update: keep only the _id (when not None) *)
       let id := match spec with
                 | VDoc sfs => match assoc "_id" sfs with
                               | Some i => Some i
@@ -657,7 +657,7 @@ Definition apply_update (spec update : value) (was_insert : bool) (now : Z) (doc
                               end
                 | _ => None
                 end in
-      Ok (VDoc (match id with Some i => if truthy i then [("_id", i)] else [] | None => [] end))
+      Ok (VDoc (match id with Some i => if is_null i then [] else [("_id", i)] | None => [] end))
   | VDoc ufs => apply_update_keys spec ufs was_insert now true ufs doc
   | _ => Err EType
   end.
